@@ -304,14 +304,29 @@ def e2e_job(job):
                     _, i1, f1, t1 = decode(sw.line_wave(sn[i].ins[0].index)); _, i2, f2, t2 = decode(sw2.line_wave(sn[i].ins[0].index))
                     if i1 != i2 or len(f1) != len(f2) or not all(eng.valid(x.e == y.e) for x, y in zip(f1, f2)):
                         bad.append(('OVLID', f'{sn[i].name}: overflow indicator clear but waveform differs from the unlimited-capacity run'))
+        tc = z3.Real('tcap_e2e')
+        if not bad and ('BOOL' in lemmas or 'HAZ' in lemmas):
+            # the same results when the capture time argument is a finite symbolic time: initial / final value, arrival times and the
+            # overflow indicator describe the whole waveform, whatever the observation time
+            eng.assume(tc >= -200, tc <= 400)
+            keep = {(k, int(i)): sw.w.s[k, int(i), 0] for i in sw.w.poppo_s_locs for k in (3, 4, 5, 6, 10)}
+            sw.w.c_to_s(time=T(0, tc))
+            for (k, i), old in keep.items():
+                new = sw.w.s[k, i, 0]
+                if isinstance(old, T) or isinstance(new, T):
+                    a, b = T.lift(old), T.lift(new)
+                    same = a.c == b.c and (a.c != 0 or eng.valid(a.e == b.e))
+                else: same = float(old) == float(new)
+                if not same:
+                    bad.append(('CAPT', f'{sn[i].name}: s[{k}] = {new} when captured at a finite time, {old} with the default capture time')); break
         rep.counts['obligations'] += len(lemmas)
         if not bad:
             rep.counts['discharged'] += len(lemmas)
             return 1
         for lemma, detail in bad:
             if lemma in found: continue
-            mdl = grid_model(eng, list(sw.dv.values()) + list(sw.tv.values()))
-            found[lemma] = ({'mode': 'e2e', 'nl': nlj, 'cls': cls, 'caps': caps, 'stim': st, 'lemma': lemma, 'opts': opts,
+            mdl = grid_model(eng, list(sw.dv.values()) + list(sw.tv.values()) + ([tc] if lemma == 'CAPT' else []))
+            found[lemma] = ({'mode': 'e2e', 'nl': nlj, 'cls': cls, 'caps': caps, 'stim': st, 'lemma': lemma, 'opts': opts, 'tcap': fr(mdl, tc) if lemma == 'CAPT' else None,
                              'dvals': [[list(k), fr(mdl, v)] for k, v in sw.dv.items()], 'tvals': [[k, fr(mdl, v)] for k, v in sw.tv.items()]}, detail)
         return 0
     try:
@@ -376,6 +391,12 @@ def replay(data):
         i = int(i)
         if i not in cap0: continue
         if lemma == 'BOOL' and (int(w.s[3, i, 0]) != cap0[i] & 1 or int(w.s[6, i, 0]) != cap1[i] & 1): return True, f'{sn[i].name}: captured {w.s[3, i, 0]}/{w.s[6, i, 0]}'
+    if lemma == 'CAPT':
+        w2 = concrete_wave(data['cls'], c, tuple(data['caps']) if isinstance(data['caps'], list) else data['caps'], stim, data.get('opts', {}), dvals, tvals, capture_time=np.float32(data['tcap']))
+        for i in w.poppo_s_locs:
+            for k in (3, 4, 5, 6, 10):
+                if float(w.s[k, int(i), 0]) != float(w2.s[k, int(i), 0]):
+                    return True, f'{sn[int(i)].name}: s[{k}] = {float(w2.s[k, int(i), 0])} when captured at time {data["tcap"]}, {float(w.s[k, int(i), 0])} with the default capture time'
     if lemma == 'HAZ':
         ls = LogicSim(c, 1, m=8)
         mv = np.full((ls.s_len, 1), logic.UNASSIGNED, dtype=np.uint8)
